@@ -48,6 +48,7 @@ fn main() {
         "C05" => props::c05::run(ctx),
         "C06" => props::c06::run(ctx),
         "C07" => props::c07::run(ctx),
+        "C08" => props::c08::run(ctx),
         "C10" => props::c10::run(ctx),
         "C11" => props::c11::run(ctx),
         "C12" => props::c12::run(ctx),
@@ -79,6 +80,7 @@ fn replay_file(path: &str) -> i32 {
             "C05" => props::c05::replay(case),
             "C06" => props::c06::replay(case),
             "C07" => props::c07::replay(case),
+            "C08" => props::c08::replay(case),
             "C10" => props::c10::replay(case),
             "C11" => props::c11::replay(case),
             "C14" => props::c14::replay(case),
